@@ -22,11 +22,22 @@ Definition owned_of (c : case) : path -> bool :=
 
 (* every file, directory, permission and link target outside the layer is exactly as before
    (frame_chk_correct), and after a successful call none of the layer's own entries exists *)
+(* the specified operation (repair flags on, the CNB SBOM suffixes) on the observed pre-state *)
+Definition spec_run (c : case) : fs * result errno unit :=
+  match c_op c with
+  | OpDeleteLayer => delete_layer true true spec_sbom_suffixes (c_layers c) (c_name c) (c_pre c)
+  | OpRdr => remove_dir_recursively true (rdr_fuel (c_pre c)) (c_layers c ++ [c_name c]) (c_pre c)
+  end.
+
+(* every file, directory, permission and link target outside the layer is exactly as before
+   (frame_chk_correct), after a successful call none of the layer's own entries exists, and a tree
+   the specified operation removes (whatever its permissions and symlinks) IS removed: the call must
+   not fail where the specification succeeds *)
 Definition holds (c : case) : bool :=
   frame_chk (owned_of c) (c_pre c) (c_post c) &&
   match c_res c with
   | ROk => forallb (fun kv => negb (owned_of c (fst kv))) (c_post c)
-  | _ => true
+  | _ => match snd (spec_run c) with Ok _ => false | Err _ => true end
   end.
 
 Definition branch_of (c : case) : N :=
